@@ -3,6 +3,7 @@
 mod atomic;
 mod batch;
 mod choices;
+mod migration;
 mod mmr;
 mod runner;
 mod sim;
@@ -57,11 +58,13 @@ fn scenarios_for(id: &str) -> Vec<Arc<dyn Scenario>> {
         "C15" => vec![Arc::new(walletscen::WalletScenario { prop: "C15" })],
         "C02" => vec![Arc::new(atomic::Atomic)],
         "C05" => vec![Arc::new(batch::Batch)],
+        "C17" => vec![Arc::new(migration::MigScenario { prop: "C17" })],
+        "C18" => vec![Arc::new(migration::MigScenario { prop: "C18" })],
         _ => vec![],
     }
 }
 
-const ALL: &[&str] = &["C01", "C02", "C03", "C05", "C06", "C15", "C20"];
+const ALL: &[&str] = &["C01", "C02", "C03", "C05", "C06", "C15", "C17", "C18", "C20"];
 
 fn usage() -> ! {
     eprintln!("usage: zsim <ID> [--tier quick|thorough] [--seed N] [--runs N] [--budget S] [--workers N] [--no-evidence]\n       zsim replay <file> [--quiet]\n       zsim selftest determinism [--n N]");
